@@ -54,6 +54,71 @@ def selftest(chk):
         chk.violation({"kind": "oracle-selftest", "detail": "seeded corruptions not noticed by the readers: %s" % missed}, has_input=False, tag="selftest")
 
 
+MANGLED = ["_Z3fooi", "_Z3food", "_Z3foov", "_ZN3bar3bazEi", "_ZN3bar3bazEd", "_ZN4core3fmt5write17h0123456789abcdefE",
+           "_ZN4core3fmt5write17hfedcba9876543210E", "plain_c_function", "?f@@YAHH@Z", "?f@@YAHN@Z"]
+
+
+def demangle_stream(chk, n):
+    """Function detail with demangling ON: names that demangle identically (C++ overloads, Rust generic
+    instantiations) are distinct functions and must all be reported: per file the number of function entries and
+    the multiset of (start, executed) must be those of the input (names are not compared: the demangler is not modelled)."""
+    import json as _json, xml.etree.ElementTree as ET
+    rng = chk.rng
+    cases = []
+    for i in range(n):
+        files = []
+        for j in range(rng.randrange(1, 3)):
+            names = rng.sample(MANGLED, rng.randrange(2, 6))
+            funcs = sorted([[nm.encode().hex(), rng.choice([1, 3, 5, 9]), rng.random() < 0.5] for nm in names], key=lambda x: bytes.fromhex(x[0]))
+            lines = [[l, rng.choice([0, 1, 7])] for l in range(1, 12)]
+            rel = ("d%d/f%d.cpp" % (i, j)).encode().hex()
+            files.append(["2f772f".encode().hex() if False else ("/w/" + "d%d/f%d.cpp" % (i, j)).encode().hex(), rel,
+                          {"lines": lines, "branches": [], "funcs": funcs}, 32])
+        cases.append({"results": files, "types": ["lcov", "coveralls+", "cobertura"], "precision": 2, "branch": True, "demangle": True})
+    impl = vlib.run_impl("report", cases, chk.pid, extra_env={"GIT_DIR": "/nonexistent"})
+    for case, res in zip(cases, impl):
+        chk.count()
+        want = {bytes.fromhex(f[1]).decode(): sorted((fn[1], fn[2]) for fn in f[2]["funcs"]) for f in case["results"]}
+        got = {}
+        try:
+            # lcov: FN / FNDA records in order per SF
+            cur = None
+            fn, fnda = {}, {}
+            for line in bytes.fromhex(res["lcov"]).split(b"\n"):
+                if line.startswith(b"SF:"):
+                    cur = line[3:].decode()
+                    fn[cur], fnda[cur] = [], []
+                elif line.startswith(b"FN:"):
+                    fn[cur].append(int(line[3:].split(b",")[0]))
+                elif line.startswith(b"FNDA:"):
+                    fnda[cur].append(int(line[5:].split(b",")[0]) != 0)
+            got["lcov"] = {k: sorted(zip(fn[k], fnda[k])) for k in fn}
+            doc = _json.loads(bytes.fromhex(res["coveralls+"]))
+            got["coveralls+"] = {f["name"]: sorted((x["start"], x["exec"]) for x in f.get("functions", [])) for f in doc["source_files"]}
+            root = ET.fromstring(bytes.fromhex(res["cobertura"]))
+            got["cobertura"] = {}
+            for cl in root.iter("class"):
+                ms = []
+                for m in cl.iter("method"):
+                    ls = [int(l.get("number")) for l in m.iter("line")]
+                    ms.append(min(ls) if ls else None)
+                got["cobertura"][cl.get("filename")] = ms
+        except Exception as ex:
+            chk.violation({"kind": "oracle", "engine": "report", "case": case, "clause": "demangled reports must be readable: %r" % ex}, tag="demangle")
+            continue
+        bad = None
+        for fmt in ("lcov", "coveralls+"):
+            if got[fmt] != want:
+                bad = (fmt, got[fmt])
+        if not bad and {k: len(v) for k, v in got["cobertura"].items()} != {k: len(v) for k, v in want.items()}:
+            bad = ("cobertura", got["cobertura"])
+        if bad:
+            chk.violation({"kind": "oracle", "engine": "report", "case": case, "format": bad[0], "decoded": bad[1], "expected": want,
+                           "clause": "with demangling on every function is still reported once (functions whose names demangle identically must not collapse)"}, tag="demangle")
+        else:
+            chk.nontrivial(["demangle", case["results"]])
+
+
 def run(chk, prop=PID):
     chk.proofs()
     quick = chk.tier == "quick"
@@ -65,6 +130,8 @@ def run(chk, prop=PID):
     impl, decs, stats = G.run_cases(chk, cases, prop, "gen")
     agree, bad = G.correspondence(chk, cases, decs, "gen", limit=None if not quick else 200)
     selftest(chk)
+    if prop == PID:
+        demangle_stream(chk, 25 if quick else 300)
     dist = {"result_sets": len(cases), "empty_set": 0, "files": 0, "files_without_lines": 0, "absolute_paths": 0, "root_files": 0,
             "lines": 0, "counts_ge_2^63": 0, "counts_2^64-1": 0, "branch_lines": 0, "branch_only_lines": 0, "functions": 0,
             "precision": {}}
